@@ -30,7 +30,8 @@ Definition scan_post (l0 : lexer) (r : token * lexer) : Prop :=
   (xl l0 = false -> tkind (fst r) = T_DIV_ASSIGN ->
      lpos (snd r) = col_add (tpos (fst r)) 2 /\ offset (snd r) = tstart (fst r) + 3) /\
   (xl l0 = true -> xl (snd r) = true) /\
-  (xl (snd r) = true -> xl l0 = true \/ cause (fst r)).
+  (xl (snd r) = true -> xl l0 = true \/ cause (fst r)) /\
+  (tover (fst r) = true -> BS src).
 
 Lemma choice_spec l0 l c one two :
   NormInv l -> Rel l0 l -> c <> 0 ->
@@ -131,14 +132,15 @@ Proof.
   - intros _ H; vm_compute in H; discriminate H.
   - congruence.
   - intros; left; congruence.
+  - apply (Inv_over src l Hi).
 Qed.
 
 Lemma tok_at_ok lc l0 kind val l' :
   NormInv lc -> xl lc = xl l0 -> tok_ok (fst (tok_at lc l0 kind val l')).
 Proof.
-  intros (Hw & H1 & Hn) Hx. unfold tok_ok, tok_at. cbn [fst tbad tkind tpos tstart tover].
-  intros Hb. destruct (Hn ltac:(congruence)) as (_ & Hl & _).
-  destruct Hw as (Hb' & _).
+  intros Hni Hx. unfold tok_ok, tok_at. cbn [fst tbad tkind tpos tstart tover].
+  intros Hb. destruct (NormInv_norm _ _ Hni ltac:(congruence)) as (_ & Hl & _).
+  pose proof (LexerPos.NormInv_bounds _ _ Hni) as Hb'.
   replace (Z.max 0 (offset lc - 1)) with (offset lc - 1) by lia.
   split.
   - intros _. split; [assumption|lia].
@@ -157,6 +159,7 @@ Proof.
   - intros _ H; vm_compute in H; discriminate H.
   - cbn [snd tok_at]. congruence.
   - cbn [snd tok_at]. intros; left; congruence.
+  - cbn [fst tok_at tover]. apply (Inv_over src l (NormInv_Inv _ _ Hn)).
 Qed.
 
 Lemma post_tok lc l0 l' kind val :
@@ -174,6 +177,7 @@ Proof.
   - intros _ H. cbn [fst tok_at tkind] in H. contradiction.
   - exact Hmono.
   - exact Hexpl.
+  - cbn [fst tok_at tover]. apply (Inv_over src l' (NormInv_Inv _ _ Hn')).
 Qed.
 
 Lemma plain_kind_neq t : plain_kind t = true -> t <> T_EOF /\ t <> T_DIV /\ t <> T_DIV_ASSIGN.
@@ -191,7 +195,7 @@ Proof.
 Qed.
 
 Lemma NormInv_bounds l : NormInv l -> 1 <= offset l <= len + 1.
-Proof. intros ((Hb & _) & H1 & _). lia. Qed.
+Proof. apply LexerPos.NormInv_bounds. Qed.
 
 Lemma is_name_start_nz c : is_name_start c = true -> c <> 0.
 Proof. unfold is_name_start. lia. Qed.
@@ -300,7 +304,7 @@ Proof.
   intros ((t, v), l2) (Hn2 & Hr2 & Ho2 & Hne & Hd1 & Hd2).
   apply okr_ret. unfold scan_post. cbn [fst snd tok_at tkind tpos tstart].
   assert (HN : xl l0 = false -> lpos l = P (offset l - 1) /\ npos l = adv (P (offset l - 1)) (ch l)).
-  { intros Hx0. destruct Hn as (_ & _ & HN). destruct (HN ltac:(congruence)) as (_ & ? & ?). split; assumption. }
+  { intros Hx0. destruct (NormInv_norm _ _ Hn ltac:(congruence)) as (_ & ? & ?). split; assumption. }
   splits.
   - apply NormInv_Inv; exact Hn2.
   - reflexivity.
@@ -316,13 +320,14 @@ Proof.
     intros Hx0 Ht. specialize (Hd2 (Hd1 (or_intror Ht))).
     destruct Hd2 as [(Ht' & _)|(_ & Hc61 & Ho & Hl2)]; [rewrite Ht in Ht'; vm_compute in Ht'; discriminate Ht'|].
     destruct (HN Hx0) as (HP & HNP).
-    destruct Hn1 as (_ & _ & HN1). destruct (HN1 ltac:(congruence)) as (_ & HP1 & HNP1).
+    destruct (NormInv_norm _ _ Hn1 ltac:(congruence)) as (_ & HP1 & HNP1).
     rewrite Hl2, HNP1, <- HP1, Hl1, HNP, HP.
     rewrite (adv_plain _ (ch l1)) by (rewrite Hc61; unfold plain; lia).
     rewrite adv_plain by (rewrite (Hd1 (or_intror Ht)); unfold plain; lia).
     rewrite col_add_add. split; [reflexivity|lia].
   - destruct Hr2; congruence.
   - intros; left; destruct Hr2; congruence.
+  - apply (Inv_over src l2 (NormInv_Inv _ _ Hn2)).
 Qed.
 
 (* ---- Scan(): scan() + lastTok ------------------------------------------------------------ *)
@@ -344,7 +349,8 @@ Definition regex_pre (l0 : lexer) (back : Z) : Prop :=
 Definition regex_post (l0 : lexer) (r : token * lexer) : Prop :=
   Inv (snd r) /\ tbad (fst r) = xl l0 /\ tok_ok (fst r) /\
   (is_final (fst r) = false -> NormInv (snd r) /\ offset l0 < offset (snd r)) /\
-  xl (snd r) = xl l0.
+  xl (snd r) = xl l0 /\
+  (tover (fst r) = true -> BS src).
 
 Lemma scan_regex_spec fuel l0 :
   NormInv l0 ->
@@ -361,7 +367,8 @@ Proof.
   eapply okr_bind; [apply (regex_loop_spec src fuel _ l0 l0 (NormInv_Inv _ _ Hn) (Rel_refl l0)); exact Hf|].
   intros [msg l|chars l] (Hi & Hr & Hc); cbn [rx_state] in *.
   - apply okr_ret. destruct (post_illegal l0 l msg Hi Hr) as (H1 & H2 & H3 & H4 & _).
-    unfold regex_post. splits; try assumption. cbn [snd tok_at]. destruct Hr; assumption.
+    unfold regex_post. splits; try assumption; [cbn [snd tok_at]; destruct Hr; assumption|].
+    cbn [fst tok_at tover]. apply (Inv_over src l Hi).
   - assert (Hnz : ch l <> 0) by lia.
     pose proof (Inv_nonzero_NormInv src l Hi Hnz) as Hnl. pose proof Hr as (Hx & Hle).
     eapply okr_bind; [apply (nextN src l0 l Hnl Hr Hnz)|].
@@ -378,6 +385,7 @@ Proof.
       * intros H; vm_compute in H; discriminate H.
     + intros _. split; [exact Hn'|lia].
     + destruct Hr'; assumption.
+    + cbn [tover]. apply (Inv_over src l' (NormInv_Inv _ _ Hn')).
 Qed.
 
 Lemma ScanRegex_spec fuel l0 :
@@ -396,6 +404,7 @@ Definition all_ok (os : list obs) : Prop := Forall (fun o => tok_ok (otok o)) os
 Definition ends_final (os : list obs) : Prop :=
   exists pre o, os = pre ++ [o] /\ is_final (otok o) = true /\
                 Forall (fun o' => is_final (otok o') = false) pre.
+Definition over_ok (os : list obs) : Prop := Forall (fun o => tover (otok o) = true -> BS src) os.
 Definition first_bad (os : list obs) (v : bool) : Prop :=
   match os with o :: _ => tbad (otok o) = v | [] => False end.
 
@@ -419,21 +428,22 @@ Qed.
 
 Lemma scan_loop_spec :
   forall fuel ds l, NormInv l -> len + 2 - offset l <= Z.of_nat fuel ->
-  okr (fun os => all_ok os /\ ends_final os /\ first_bad os (xl l) /\ explained (xl l = true) os)
+  okr (fun os => all_ok os /\ ends_final os /\ first_bad os (xl l) /\ explained (xl l = true) os /\ over_ok os)
       (scan_loop src (lex_fuel src) fuel ds l).
 Proof.
   induction fuel as [|f IH]; intros ds l Hn Hf.
   - exfalso. pose proof (NormInv_bounds _ Hn). lia.
   - cbn [scan_loop].
     eapply okr_bind; [apply (Scan_spec _ l Hn (lex_fuel_enough l Hn))|].
-    intros (t, l1) ((Hi1 & Hbad & Hok & Hnf & Hdiv & Hdiva & Hmono & Hexpl) & Hlast). cbn [fst snd] in *.
+    intros (t, l1) ((Hi1 & Hbad & Hok & Hnf & Hdiv & Hdiva & Hmono & Hexpl & Hov) & Hlast). cbn [fst snd] in *.
     assert (Hhead : tbad t = true -> xl l = true) by (intros; congruence).
     destruct (is_final t) eqn:Efin.
     { apply okr_ret. splits.
       - constructor; [exact Hok|constructor].
       - exists [], (observe t l1). splits; [reflexivity|exact Efin|constructor].
       - exact Hbad.
-      - cbn [explained observe otok]. split; [exact Hhead|exact I]. }
+      - cbn [explained observe otok]. split; [exact Hhead|exact I].
+      - constructor; [exact Hov|constructor]. }
     destruct (Hnf eq_refl) as (Hn1 & Ho1).
     set (want := match ds with d :: _ => is_div t && d | [] => false end).
     destruct want eqn:Ewant.
@@ -453,7 +463,7 @@ Proof.
           destruct (Hstart H1) as (Hp & Hs); [rewrite Ek; tkneq|].
           exists (tstart t). splits; [assumption|congruence|lia]. }
       eapply okr_bind; [apply (ScanRegex_spec _ l1 Hn1 Hpre (lex_fuel_enough l1 Hn1))|].
-      intros (r, l2) (Hi2 & Hbad2 & Hok2 & Hnf2 & Hx2). cbn [fst snd] in *.
+      intros (r, l2) (Hi2 & Hbad2 & Hok2 & Hnf2 & Hx2 & Hov2). cbn [fst snd] in *.
       assert (Hhead2 : tbad r = true -> (xl l = true \/ cause t)) by (intros; apply Hexpl; congruence).
       destruct (is_final r) eqn:Efin2.
       { apply okr_ret. splits.
@@ -461,10 +471,11 @@ Proof.
         - exists [observe t l1], (observe r l2). splits; [reflexivity|exact Efin2|].
           constructor; [exact Efin|constructor].
         - exact Hbad.
-        - cbn [explained observe otok]. splits; [exact Hhead|exact Hhead2|exact I]. }
+        - cbn [explained observe otok]. splits; [exact Hhead|exact Hhead2|exact I].
+        - constructor; [exact Hov|constructor; [exact Hov2|constructor]]. }
       destruct (Hnf2 eq_refl) as (Hn2 & Ho2).
       eapply okr_bind; [apply (IH _ l2 Hn2); lia|].
-      intros rest (Hall & (pre & o & -> & Hfo & Hpre') & _ & Hex). apply okr_ret. splits.
+      intros rest (Hall & (pre & o & -> & Hfo & Hpre') & _ & Hex & Hovr). apply okr_ret. splits.
       * constructor; [exact Hok|constructor; [exact Hok2|exact Hall]].
       * exists (observe t l1 :: observe r l2 :: pre), o. splits; [reflexivity|exact Hfo|].
         constructor; [exact Efin|constructor; [exact Efin2|exact Hpre']].
@@ -472,14 +483,16 @@ Proof.
       * cbn [explained observe otok app]. splits; [exact Hhead|exact Hhead2|].
         apply (explained_weaken _ (xl l2 = true)); [|exact Hex].
         intros Hx2t. left. apply Hexpl. congruence.
+      * constructor; [exact Hov|constructor; [exact Hov2|exact Hovr]].
     + eapply okr_bind; [apply (IH _ l1 Hn1); lia|].
-      intros rest (Hall & (pre & o & -> & Hfo & Hpre') & _ & Hex). apply okr_ret. splits.
+      intros rest (Hall & (pre & o & -> & Hfo & Hpre') & _ & Hex & Hovr). apply okr_ret. splits.
       * constructor; [exact Hok|exact Hall].
       * exists (observe t l1 :: pre), o. splits; [reflexivity|exact Hfo|].
         constructor; [exact Efin|exact Hpre'].
       * exact Hbad.
       * cbn [explained observe otok app]. split; [exact Hhead|].
         apply (explained_weaken _ (xl l1 = true)); [exact Hexpl|exact Hex].
+      * constructor; [exact Hov|exact Hovr].
 Qed.
 
 End Tokens.
